@@ -21,7 +21,6 @@ from __future__ import annotations
 
 import ast
 import builtins
-import functools
 import itertools
 import operator
 import posixpath
@@ -897,15 +896,12 @@ class Evaluator:
 
     def _compare(self, op: type, a: object, b: object):
         if a is POISON or b is POISON:
-            if op in (ast.Is, ast.IsNot) and (a is None or b is None or isinstance(a, bool) or isinstance(b, bool)):
-                return POISON
             return POISON
         if op in (ast.Is, ast.IsNot):
             same = a is b or (isinstance(a, (Fn, ClassRef)) and a == b)
-            if _is_plain(a) and _is_plain(b) and not (a is None or b is None or isinstance(a, bool) or isinstance(b, bool)) and a is not b:
-                # identity of two equal non-singleton values is an implementation detail
-                if a == b and type(a) is type(b) and isinstance(a, (str, int, tuple, frozenset)):
-                    raise Unknown("identity comparison of equal immutable values")
+            singleton = a is None or b is None or isinstance(a, bool) or isinstance(b, bool)
+            if not same and not singleton and _is_plain(a) and type(a) is type(b) and isinstance(a, (str, int, tuple, frozenset)) and a == b:
+                raise Unknown("identity of two equal immutable values is an implementation detail")
             return same if op is ast.Is else not same
         if op in (ast.In, ast.NotIn):
             if isinstance(b, Obj):
